@@ -1,5 +1,6 @@
 """C12 — no expired entry is served. DESIGN.md §4 C12. Clause 1 instances in iterators and snapshots
 are shared with C17-1."""
+import re
 import mir
 from report import Result
 from rules import cachelib as cl
@@ -232,6 +233,133 @@ def clause4(P, res):
         res.violated(rid, "expiry-arguments", f"expected >= 12 call sites passing time_to_live/time_to_idle, found {n}")
 
 
+def derives_from_clock(b, op):
+    evs, _, _ = mir.operand_sources(b, op)
+    return any(e.kind == "call" and re.search(r"time::now_duration$|Instant::now$|now_duration$", e.callee_resolved or e.callee or "") for e in evs)
+
+
+def derives_from_deadline(b, op):
+    pth = b.path_of_operand(op)
+    if re.search(r"(expires_at|expires_at_nanos|last_accessed)$", pth):
+        return True
+    evs, _, _ = mir.operand_sources(b, op)
+    return any(e.kind == "call" and e.is_atomic and e.method == "load" and e.args and re.search(r"(expires_at|last_accessed)$", b.path_of_operand(e.args[0])) for e in evs)
+
+
+def clause5(P, res):
+    rid = "C12-5"
+    res.rule(rid, "the expiry instant itself is expired: every ordering comparison between the clock (`now`) and a deadline derived from expires_at / last_accessed is "
+                  "`now >= deadline` (expired) or `now < deadline` (fresh) — `>` / `<=` serve the entry at its expiry instant and make the read paths disagree")
+    n = 0
+    for b in cl.cache_bodies(P):
+        k = 0
+        for e in b.events:
+            if e.kind != "assign" or e.data["r"]["k"] != "bin" or e.data["r"]["op"] not in ("Lt", "Le", "Gt", "Ge"):
+                continue
+            r = e.data["r"]
+            ca, cb = derives_from_clock(b, r["a"]), derives_from_clock(b, r["b"])
+            da, db = derives_from_deadline(b, r["a"]), derives_from_deadline(b, r["b"])
+            if ca and db and not da:
+                op = r["op"]
+            elif cb and da and not db:
+                op = {"Lt": "Gt", "Gt": "Lt", "Le": "Ge", "Ge": "Le"}[r["op"]]
+            else:
+                continue
+            n += 1
+            key = f"{b.id}:now-vs-deadline#{k}"
+            k += 1
+            if op in ("Ge", "Lt"):
+                res.holds(rid, key, f"now {'>=' if op == 'Ge' else '<'} deadline", where=e.loc)
+            else:
+                res.violated(rid, key, f"the clock is compared with `{'>' if op == 'Gt' else '<='}` against the deadline at {e.loc}: an entry read exactly at its expiry instant is "
+                             "served (and the read paths no longer agree on the instant)", where=e.loc)
+    if n < 4:
+        res.violated(rid, "deadline-comparisons", f"expected >= 4 clock-vs-deadline comparisons, found {n}")
+
+
+def clause6(P, res):
+    rid = "C12-6"
+    res.rule(rid, "every expiry test is told the configured idle timeout: the `tti` argument of each is_expired call is the cache's `time_to_idle` (never a literal None or "
+                  "another duration) — a test that leaves it out serves or exports entries whose idle timeout has elapsed")
+    n = 0
+    for b in cl.cache_bodies(P):
+        for k, e in enumerate([x for x in b.calls() if x.method == "is_expired" and "CacheEntry" in (x.callee_full or x.callee)]):
+            n += 1
+            key = f"{b.id}:is_expired#{k}"
+            pth = b.path_of_operand(e.args[1]) if len(e.args) > 1 else ""
+            if re.search(r"time_to_idle$", pth):
+                res.holds(rid, key, f"tti = `{pth}`", where=e.loc)
+            else:
+                res.violated(rid, key, f"is_expired at {e.loc} is not given the configured time_to_idle (argument: `{pth or 'constant'}`): idle-expired entries pass this test", where=e.loc)
+    if n < 15:
+        res.violated(rid, "is_expired-sites", f"expected >= 15 is_expired call sites, found {n}")
+
+
+def clause7(P, res):
+    rid = "C12-7"
+    res.rule(rid, "deadlines are fixed at insertion, the clock is the real one: nothing writes `expires_at` after the entry was built (a read path that pushes it out "
+                  "makes every other read serve an expired value), `last_accessed` is written only by update_last_accessed, and is_expired / update_last_accessed read "
+                  "the precise clock (time::now_duration) themselves, not a cached reading")
+    wr = []
+    for b in cl.cache_bodies(P):
+        for e in b.calls():
+            if e.is_atomic and e.method not in ("load", "new", "get_mut", "into_inner") and e.args:
+                pth = b.path_of_operand(e.args[0])
+                if re.search(r"(expires_at|last_accessed)$", pth):
+                    wr.append((b, e, pth))
+    okw = 0
+    for b, e, pth in wr:
+        key = f"{b.id}:{pth.rsplit('.', 1)[-1]}.{e.method}"
+        if pth.endswith("last_accessed") and b.name == "update_last_accessed":
+            okw += 1
+            res.holds(rid, key, "the designated idle-refresh", where=e.loc)
+        else:
+            res.violated(rid, key, f"`{pth}` is rewritten at {e.loc} outside the entry constructors / update_last_accessed: the deadline every other read path checks has moved", where=e.loc)
+    if okw < 1:
+        res.violated(rid, "deadline-writers", "update_last_accessed's store not found (matcher self-check)")
+    for name in ("is_expired", "update_last_accessed"):
+        bb = P.body(f"fibre_cache::entry::CacheEntry::<V>::{name}")
+        if bb is None:
+            res.unclassified(rid, name, "function not found")
+        elif any(re.search(r"time::now_duration$", x.callee_resolved or x.callee or "") for x in bb.calls()):
+            res.holds(rid, f"{name}:clock", "reads time::now_duration()", where=f"{bb.file}:{bb.line}")
+        else:
+            res.violated(rid, f"{name}:clock", f"{name} no longer reads the precise clock itself: expiry is decided against a stale reading", where=f"{bb.file}:{bb.line}")
+
+
+def clause8(P, res):
+    from rules import c11
+    rid = "C12-8"
+    res.rule(rid, "expiry is decided and acted on in one critical section: wherever a function both tests is_expired and removes entries from a shard map, the test and "
+                  "the removal happen under the same acquisition of that shard's write lock — a victim sampled under one lock and removed under another may have been "
+                  "overwritten or refreshed in between, and a live entry is removed (and reported Expired)")
+    n = 0
+    for b in cl.cache_bodies(P):
+        ex = [e for e in b.calls() if cl.is_expired_call(e)]
+        rm = cl.map_events(b, {"remove", "remove_entry", "retain"})
+        if not ex or not rm:
+            continue
+        n += 1
+        acqs = c11.shard_write_acqs(b)
+        regions = [mir.guards_held(b, [a])[0] for a in acqs]
+        bad = None
+        for r in rm:
+            reg = [h for h in regions if r.pos in h]
+            if not reg:
+                bad = f"the removal at {r.loc} is not under a shard write guard acquired in this function"
+                break
+            if not all(any(x.pos in h for h in reg) for x in ex):
+                x = [x for x in ex if not any(x.pos in h for h in reg)][0]
+                bad = f"is_expired is evaluated at {x.loc} outside the write-lock critical section of the removal at {r.loc}: the entry removed may no longer be the one that was tested"
+                break
+        if bad:
+            res.violated(rid, b.id, bad, where=rm[0].loc)
+        else:
+            res.holds(rid, b.id, f"{len(ex)} expiry test(s) and {len(rm)} removal(s) under one write guard", where=rm[0].loc)
+    if n < 1:
+        res.violated(rid, "test-and-remove-bodies", "expected the TTI cleanup (is_expired + remove in one function), found none")
+
+
 def run(P, ctx):
     res = Result("C12")
     res.extra["explanation"] = ("Expiry-gate, Expired-reason justification and peek-does-not-refresh shapes over every value read of fibre_cache.")
@@ -239,4 +367,8 @@ def run(P, ctx):
     clause2(P, res)
     clause3(P, res)
     clause4(P, res)
+    clause5(P, res)
+    clause6(P, res)
+    clause7(P, res)
+    clause8(P, res)
     return res
